@@ -187,3 +187,100 @@ package consensus
 //@   atcall PeerState.SetHasProposal valid: validMsg != 0
 //@   atcall PeerState.SetHasProposalBlockPart valid: validMsg != 0
 //@   atcall PeerState.SetHasVote valid: validMsg != 0
+
+// ---- C15: the consensus write-ahead log ----
+//@ import io io
+//@ import auto github.com/tendermint/tendermint/libs/autofile
+//@ import proto github.com/gogo/protobuf/proto
+//@ import crc32 hash/crc32
+
+// walRecords counts the records handed to the underlying writer. Durability is the file group's typestate (bufFlushed,
+// headSynced of libs/autofile/zz_verif_contracts.go): a write into the buffered head makes both false again.
+//@ ghost var walRecords int
+//@ extern io.Writer.Write
+//@   assigns walRecords, bufFlushed, headSynced
+//@   sets walRecords = old(walRecords) + 1 when true
+//@   sets bufFlushed = false when true
+//@   sets headSynced = false when true
+//@ func WALToProto
+//@   trusted
+//@   assigns nothing
+//@ func WALFromProto
+//@   trusted
+//@   assigns nothing
+// ASSUMED: an encoded message is shorter than 2 GiB (the length is narrowed to 32 bits before it is compared with the
+// limit).
+//@ extern proto.Marshal
+//@   assigns nothing
+//@   ensures small: len(result0) <= 2147483647
+//@ extern proto.Unmarshal
+//@   assigns nothing
+//@ extern crc32.Checksum
+//@   pure
+//@   assigns nothing
+//@ extern io.Reader.Read
+//@   assigns nothing
+
+// One record = one Write of an 8-byte header plus the payload; payloads above the size limit are refused before
+// anything is written.
+//@ func WALEncoder.Encode
+//@   ensures one: result == nil ==> walRecords == old(walRecords) + 1
+//@   ensures none: walRecords == old(walRecords) || walRecords == old(walRecords) + 1
+//@   atcall Writer.Write frame: len(arg0) == 8 + len(data) && len(data) <= maxMsgSizeBytes && walRecords == old(walRecords)
+
+// A record is returned only if its length is within the limit and the CRC stored in front of it equals the CRC of the
+// payload read; every failure other than a clean end of input before a record is a DataCorruptionError.
+//@ func WALDecoder.Decode
+//@   ensures intact: result1 == nil ==> (result0 != nil && actualCRC == crc && length <= maxMsgSizeBytes)
+//@   ensures nomsg: result1 != nil ==> result0 == nil
+
+// A synced write reports success only after the record went to the writer and the group was flushed and fsynced after it.
+//@ func BaseWAL.Write
+//@   ensures one: (result == nil && wal != nil) ==> walRecords == old(walRecords) + 1
+//@ func BaseWAL.FlushAndSync
+//@   ensures durable: result == nil ==> (bufFlushed && headSynced)
+//@ func BaseWAL.WriteSync
+//@   ensures durable: (result == nil && wal != nil) ==> (walRecords == old(walRecords) + 1 && bufFlushed && headSynced)
+
+// The end-of-height search reports "found" only for an EndHeightMessage of exactly the height asked for, and then hands
+// back the reader positioned right after it; otherwise no reader.
+//@ extern auto.Group.MinIndex
+//@   assigns nothing
+//@ extern auto.Group.MaxIndex
+//@   assigns nothing
+//@ extern auto.Group.NewReader
+//@   assigns nothing
+//@ extern auto.GroupReader.Close
+//@   assigns nothing
+//@ func IsDataCorruptionError
+//@   assigns nothing
+//@ func BaseWAL.SearchForEndHeight
+//@   ensures found: result1 ==> (result2 == nil && result0 != nil && m.Height == height)
+//@   ensures none: !result1 ==> result0 == nil
+//@   loop 1 invariant t: true
+//@   loop 2 invariant t: true
+
+// Write-ahead discipline of the consensus loop: a message or timeout is handled only after it was handed to the WAL -
+// the node's own messages only after a SYNCED write succeeded (the loop panics otherwise).
+//@ ghost var walFresh bool
+//@ extern WAL.Write
+//@   assigns walFresh
+//@   sets walFresh = true when true
+//@ extern WAL.WriteSync
+//@   assigns walFresh
+//@   sets walFresh = (result == nil) when true
+//@ func State.handleMsg
+//@   trusted
+//@   assigns heap, walFresh
+//@   sets walFresh = false when true
+//@ func State.handleTimeout
+//@   trusted
+//@   assigns heap, walFresh
+//@   sets walFresh = false when true
+//@ func State.handleTxsAvailable
+//@   trusted
+//@   assigns heap
+//@ func State.receiveRoutine
+//@   loop 1 invariant t: true
+//@   atcall State.handleMsg logged: walFresh
+//@   atcall State.handleTimeout logged: walFresh
